@@ -302,6 +302,62 @@ pub fn enumerate(thorough: bool, part: usize, parts: usize, sink: &mut EnumSink)
             sink.stats.exhaustive_spaces.push("near-unary family s = a^n b a^tail, p = a^m b with the closed-form answer: (n,m) = (200,50) for every tail in 0..=300; (40,33) (300,299..301) (1000,64) (5000,4097) (70001,70000) (66000,65536) (131073,131072) (200000,3) with tails 0, 1, 34, 70".to_string());
         }
     }
+    // size-budget family: a long subject, a short pattern that occurs 0, 1 or 2 times, and a long replacement,
+    // with |s|/|p| * |r| far beyond MAX_LENGTH = 2^31-1 while the actual result has a few hundred thousand
+    // characters: a result-size estimate that counts possible instead of actual occurrences (to pre-allocate,
+    // or to "fail early") refuses or mis-sizes a perfectly legal result
+    {
+        let (a, b, c) = (0x61u32, 0x62u32, 0x63u32);
+        let mut fam: Vec<(usize, usize, usize, usize)> = Vec::new(); // (|s|, |p|, |r|, occurrences)
+        for &(n, pl, m) in &[(70_000usize, 1usize, 40_000usize), (50_000, 2, 100_000), (1_000_000, 1, 3_000), (66_000, 3, 131_072)] {
+            for k in 0..=2usize {
+                fam.push((n, pl, m, k));
+            }
+        }
+        for (idx, &(n, pl, m, k)) in fam.iter().enumerate() {
+            if idx % parts != part {
+                continue;
+            }
+            // p = b^pl; occurrences planted at n/3 and 2n/3
+            let pv = vec![b; pl];
+            let mut sv = vec![a; n];
+            let spots: Vec<usize> = (1..=k).map(|j| j * n / 3).collect();
+            for &q in &spots {
+                for z in 0..pl {
+                    sv[q + z] = b;
+                }
+            }
+            let rv = vec![c; m];
+            let what = || format!("s = a^{} with b^{} planted {} time(s), p = b^{}, r = c^{}", n, pl, k, pl, m);
+            let mut o = Outcome::default();
+            o.evals += 3;
+            match crate::runner::catch(|| {
+                let (cs, cp, cr) = (smt(&sv), smt(&pv), smt(&rv));
+                (vec_of(&str_replace(&cs, &cp, &cr)), vec_of(&str_replace_all(&cs, &cp, &cr)), str_indexof(&cs, &cp, 0) as i64)
+            }) {
+                Err(msg) => o.fail("C06/panics", format!("{}: {}", what(), msg)),
+                Ok((rep, rep_all, i0)) => {
+                    let exp = r7::replace(&sv, &pv, &rv);
+                    let exp_all = r7::replace_all(&sv, &pv, &rv);
+                    assert_eq!(exp_all.len(), n - k * pl + k * m);
+                    if rep != exp {
+                        o.fail("C06/replace", format!("{}: str_replace has length {} (expected {})", what(), rep.len(), exp.len()));
+                    } else if rep_all != exp_all {
+                        o.fail("C06/replace_all", format!("{}: str_replace_all has length {} (expected {})", what(), rep_all.len(), exp_all.len()));
+                    } else if i0 != spots.first().map(|&q| q as i64).unwrap_or(-1) {
+                        o.fail("C06/indexof", format!("{}: str_indexof(s, p, 0) = {}", what(), i0));
+                    }
+                }
+            }
+            sink.case(&o, true, || what());
+            if sink.failed() {
+                return;
+            }
+        }
+        if part == 0 {
+            sink.stats.exhaustive_spaces.push("size-budget family: (|s|,|p|,|r|) = (70000,1,40000) (50000,2,100000) (1000000,1,3000) (66000,3,131072), the pattern planted 0, 1 and 2 times: replace, replace_all and indexof against R7 (|s|/|p|*|r| exceeds 2^31-1, the result does not)".to_string());
+        }
+    }
     // aggregate-collision family: a window W of the subject and a pattern P of the same length that agree on
     // their first and last characters and on every lossy summary a "fast" comparison might accumulate instead
     // of comparing position by position — the same multiset of characters (sums, xors, sorted copies, rolling
